@@ -918,6 +918,12 @@ impl<T: Scalar> State<T> {
                     match std::panic::catch_unwind(std::panic::AssertUnwindSafe(|| T::derive(&src, kk))) {
                         Ok((ps, rs)) => {
                             for p in ps.into_iter().take(6) {
+                                // a geo algorithm that answers with non-finite coordinates (overflow on extreme input)
+                                // is outside the finite domain of the property: NaN != NaN makes "closed" unsatisfiable
+                                if p.exterior().0.iter().chain(p.interiors().iter().flat_map(|r| r.0.iter())).any(|c| !c.x.finite() || !c.y.finite()) {
+                                    pr.hit("derive_non_finite_result");
+                                    continue;
+                                }
                                 // judged at once (the pool only keeps the last few)
                                 Self::check_poly(&p, "polygon returned by a geo algorithm")?;
                                 self.add_poly(p);
@@ -1192,6 +1198,16 @@ impl<T: Scalar> State<T> {
                 }
                 for r in rs.into_iter().take(3) {
                     Self::check_rect(&r, "Rect built by an Arbitrary constructor")?;
+                    // like the polygons: only corners of moderate magnitude live on in the pool (an f32 Rect of
+                    // 1e38 turned into a polygon and handed to a geo algorithm overflows to NaN, and NaN != NaN
+                    // makes "closed" unsatisfiable - outside the finite domain of the property)
+                    let moderate = [r.min().x, r.min().y, r.max().x, r.max().y].iter().all(|v| {
+                        let f = v.to_f64().unwrap_or(0.0).abs();
+                        f == 0.0 || (1e-3..=1e4).contains(&f)
+                    });
+                    if !moderate {
+                        continue;
+                    }
                     if self.rects.len() >= MAX_RECTS {
                         self.rects.remove(0);
                     }
